@@ -228,6 +228,10 @@ type Spec struct {
 	EscapeMatters func(t *Tracer, fr *Frame, mc *ssa.MakeClosure) bool
 	MaxPaths int
 	MaxDepth int
+	// Eval may decide a branch condition by constant propagation (used by the
+	// TABLE rules that fix one input to a constant); known=false leaves both
+	// directions open.
+	Eval func(t *Tracer, fr *Frame, cond ssa.Value) (val bool, known bool)
 	// EdgeLimit is how often one CFG edge may be taken on a path (default 1:
 	// loops run 0 or 1 times; 2 lets a rule see the second iteration).
 	EdgeLimit int
@@ -421,6 +425,8 @@ func (t *Tracer) execIf(fr *Frame, i *ssa.If, st State, k func(State, []Ref)) {
 	dirs := []bool{true, false}
 	if c, ok := constBool(i.Cond); ok {
 		dirs = []bool{c}
+	} else if v, ok := t.evalCond(fr, i.Cond); ok {
+		dirs = []bool{v}
 	} else if key != "" {
 		if v, ok := st.fact(key); ok {
 			dirs = []bool{v != neg}
@@ -820,4 +826,12 @@ func (t *Tracer) FmtPath(evs []Ev) string {
 		parts = append(parts, s)
 	}
 	return strings.Join(parts, " → ")
+}
+
+
+func (t *Tracer) evalCond(fr *Frame, c ssa.Value) (bool, bool) {
+	if t.Spec.Eval == nil {
+		return false, false
+	}
+	return t.Spec.Eval(t, fr, c)
 }
